@@ -25,6 +25,7 @@ type Obligation struct {
 	Desc      string
 	Vacuity   bool // a cover: the goal is expected to be SATISFIABLE (reachability)
 	ModelVars []string
+	Merges    [][]string // edge conditions of the merge points passed so far (for case splitting)
 	vc        *VC
 }
 
@@ -134,6 +135,8 @@ type VC struct {
 	inlineStack []*ssa.Function
 	heldOnEntry map[string]bool
 	lockChecksOff bool
+	nquant int
+	merges [][]string
 	pendingAxioms []string
 	axiomDone map[int]bool
 }
@@ -164,8 +167,8 @@ const smtPrelude = `(set-option :produce-models true)
 (declare-fun sless (Str Str) Bool)
 (declare-datatypes ((Slice 0)) (((mk_slice (s_arr Int) (s_off Int) (s_len Int) (s_cap Int)))))
 (declare-datatypes ((Iface 0)) (((mk_iface (i_tag Int) (i_ref Int)))))
-(declare-const alloc@0 (Array Int Bool))
-(assert (not (select alloc@0 0)))
+(declare-const alloc@0 Int)
+(assert (>= alloc@0 1))
 `
 
 func newVC(p *Prog, fnName string) *VC {
@@ -200,11 +203,11 @@ func (vc *VC) errorf(format string, args ...any) {
 }
 
 type checkpoint struct {
-	outLen, oblLen, declLen, errLen int
+	outLen, oblLen, declLen, errLen, mergeLen int
 }
 
 func (vc *VC) checkpoint() checkpoint {
-	return checkpoint{len(vc.out), len(vc.obls), len(vc.declLog), len(vc.errs)}
+	return checkpoint{len(vc.out), len(vc.obls), len(vc.declLog), len(vc.errs), len(vc.merges)}
 }
 
 func (vc *VC) rollback(cp checkpoint) {
@@ -225,6 +228,7 @@ func (vc *VC) rollback(cp checkpoint) {
 	}
 	vc.declLog = vc.declLog[:cp.declLen]
 	vc.errs = vc.errs[:cp.errLen]
+	vc.merges = vc.merges[:cp.mergeLen]
 }
 
 // fresh declares a new constant of the given sort.
@@ -239,7 +243,14 @@ func (vc *VC) fresh(hint, sort string) string {
 func (vc *VC) define(hint, sort, term string) string {
 	vc.nfresh++
 	name := fmt.Sprintf("%s!%d", sanitize(hint), vc.nfresh)
-	vc.out = append(vc.out, fmt.Sprintf("(define-fun %s () %s %s)", name, sort, term))
+	switch sort {
+	case "Int", "Slice", "Iface", "Str":
+		// atomic constants (not macros) keep index terms in the syntactic shape
+		// that quantifier triggers need
+		vc.out = append(vc.out, fmt.Sprintf("(declare-const %s %s)\n(assert (= %s %s))", name, sort, name, term))
+	default:
+		vc.out = append(vc.out, fmt.Sprintf("(define-fun %s () %s %s)", name, sort, term))
+	}
 	return name
 }
 
@@ -278,6 +289,7 @@ func (vc *VC) oblige(kind, label, goal string, pos token.Pos, desc string) {
 	}
 	name := vc.uniqueName(fmt.Sprintf("%s#%s[%s]", vc.curFuncName(), kind, label))
 	o := &Obligation{Name: name, Kind: kind, Func: vc.fnName, Goal: full, PrefixLen: len(vc.out), Desc: desc, vc: vc}
+	o.Merges = append(o.Merges, vc.merges...)
 	if pos.IsValid() {
 		o.Pos = vc.p.fset.Position(pos)
 	}
@@ -306,11 +318,26 @@ func (vc *VC) curFuncName() string {
 }
 
 // Script returns the SMT-LIB text of an obligation.
-func (o *Obligation) Script() string {
+func (o *Obligation) Script() string { return o.ScriptWith(nil) }
+
+// ScriptWith adds extra assumptions (case-split atoms) before the goal.
+func (o *Obligation) ScriptWith(extra []string) string {
+	var sb strings.Builder
+	defer func() {}()
+	for _, e := range extra {
+		defer func(e string) {}(e)
+	}
+	return o.script(&sb, extra)
+}
+
+func (o *Obligation) script(sbp *strings.Builder, extra []string) string {
 	var sb strings.Builder
 	for _, l := range o.vc.out[:o.PrefixLen] {
 		sb.WriteString(l)
 		sb.WriteString("\n")
+	}
+	for _, e := range extra {
+		fmt.Fprintf(&sb, "(assert %s)\n", e)
 	}
 	if o.Vacuity {
 		fmt.Fprintf(&sb, "(assert %s)\n(check-sat)\n", o.Goal)
@@ -381,14 +408,46 @@ func (vc *VC) havocStorage(name, sort string) {
 }
 
 // elemHeap is the name of the element heap for slices of elemT.
+// typeKey names a Go type for heap separation: values of different Go types
+// never share storage (no unsafe in the verified subset).
+func (vc *VC) typeKey(t types.Type) string {
+	if b, ok := t.(*types.Basic); ok {
+		return types.Typ[b.Kind()].Name()
+	}
+	if c, ok := atomicContent(t); ok {
+		return "atomic_" + vc.typeKey(c)
+	}
+	if _, ok := t.(*types.Named); ok {
+		return shortTypeName(t)
+	}
+	if a, ok := t.(*types.Alias); ok {
+		return vc.typeKey(types.Unalias(a))
+	}
+	switch u := t.(type) {
+	case *types.Pointer:
+		return "ptr_" + vc.typeKey(u.Elem())
+	case *types.Slice:
+		return "sl_" + vc.typeKey(u.Elem())
+	case *types.Array:
+		return fmt.Sprintf("arr%d_%s", u.Len(), vc.typeKey(u.Elem()))
+	case *types.Map:
+		return "map_" + vc.typeKey(u.Key()) + "_" + vc.typeKey(u.Elem())
+	case *types.Interface:
+		if u.NumMethods() == 0 {
+			return "any"
+		}
+	}
+	return sanitize(types.TypeString(t, nil))
+}
+
 func (vc *VC) elemHeap(elemT types.Type) (name, sort string) {
 	es := vc.sortOf(elemT)
-	return "E." + sortKey(es), "(Array Int (Array Int " + es + "))"
+	return "E." + vc.typeKey(elemT), "(Array Int (Array Int " + es + "))"
 }
 
 func (vc *VC) cellHeap(t types.Type) (name, sort string) {
 	es := vc.sortOf(t)
-	return "C." + sortKey(es), "(Array Int " + es + ")"
+	return "C." + vc.typeKey(t), "(Array Int " + es + ")"
 }
 
 func (vc *VC) fieldHeap(structT types.Type, f *types.Var) (name, sort string) {
@@ -397,7 +456,7 @@ func (vc *VC) fieldHeap(structT types.Type, f *types.Var) (name, sort string) {
 
 func (vc *VC) mapHeaps(mt *types.Map) (dom, domSort, val, valSort string) {
 	ks, vs := vc.sortOf(mt.Key()), vc.sortOf(mt.Elem())
-	key := sortKey(ks) + "." + sortKey(vs)
+	key := vc.typeKey(mt.Key()) + "." + vc.typeKey(mt.Elem())
 	return "MD." + key, "(Array Int (Array " + ks + " Bool))", "MV." + key, "(Array Int (Array " + ks + " " + vs + "))"
 }
 
@@ -502,7 +561,7 @@ type ModLoc struct {
 }
 
 func (vc *VC) isFresh(ref string) string {
-	return fmt.Sprintf("(not (select alloc@0 %s))", ref)
+	return fmt.Sprintf("(>= %s alloc@0)", ref)
 }
 
 // frameCheck emits the obligation that a write to heap[idx] is allowed by the
@@ -539,9 +598,10 @@ func (vc *VC) frameCheck(heap, idx string, pos token.Pos) {
 // allocRef allocates a fresh reference.
 func (vc *VC) allocRef(hint string) string {
 	r := vc.fresh(hint, "Int")
-	a := vc.get("alloc", "(Array Int Bool)")
-	vc.assume(fmt.Sprintf("(and (> %s 0) (not (select %s %s)) (not (select alloc@0 %s)))", r, a, r, r))
-	vc.set("alloc", "(Array Int Bool)", fmt.Sprintf("(store %s %s true)", a, r))
+	// references are handed out in increasing order: r is allocated iff 0 < r < alloc
+	a := vc.get("alloc", "Int")
+	vc.assume(fmt.Sprintf("(and (> %s 0) (>= %s %s))", r, r, a))
+	vc.set("alloc", "Int", fmt.Sprintf("(+ %s 1)", r))
 	return r
 }
 
@@ -647,7 +707,7 @@ func (vc *VC) mergeStates(conds []string, states []*State) *State {
 
 func (vc *VC) guessSort(k string) string {
 	if k == "alloc" {
-		return "(Array Int Bool)"
+		return "Int"
 	}
 	panic("unknown storage sort for " + k)
 }
